@@ -157,7 +157,7 @@ func (v *mrVerdict) add(format string, a ...interface{}) {
 }
 
 func checkC20(c *Ctx) {
-	c.explainf("C20 decides: every `range` over a Go map in the interpreter package and the command is order-independent by construction — its body only writes map elements, deletes, counts, sets idempotent flags, appends to a slice that is sorted before any other use, and calls nothing that advances the symbol counter, writes a package variable or prints — or it is reported (leaving the loop on the first match, panicking or returning from inside it, concatenating, or calling an order-sensitive function). Package-level variables written on script-reachable paths are enumerated and frozen. It does not decide time, randomness or pointer printing (excluded by the property).")
+	c.explainf("C20 decides: every `range` over a Go map in the interpreter package and the command is order-independent by construction — its body only writes map elements, deletes, counts, sets idempotent flags, appends to a slice that is sorted before any other use, and calls nothing that advances the symbol counter, writes a package variable or prints — or it is reported (leaving the loop on the first match, panicking or returning from inside it, concatenating, or calling an order-sensitive function). Package-level variables written on script-reachable paths are enumerated and frozen. No text returned to the script is formatted with %p, with %v / %#v of a script value or of a type with nested pointers, or from runtime.Stack (C20-ADDR). It does not decide time, randomness or the explicit pointer-printing functions (excluded by the property).")
 	c.checkNoAddressesInText("C20-ADDR")
 	osi := c.orderSensitive()
 	ranges := c.mapRanges()
